@@ -21,6 +21,11 @@ for sid in sys.argv[1:]:
         new["history"] = ("MISSED by the check as it stood when the change was written; the builder was given a description "
                           "of the CLASS (not the patch) and extended harness/model; result below is the re-run with the original patch")
         new["first_run"] = old.get("first_run") or {"caught": False, "summary": old.get("summary", [])}
+    elif old.get("caught") and old.get("with_failing_input", 0) == 0:
+        new["history"] = ("first run: caught only as no-failing-input-found (broken fact / proof / correspondence or a harness "
+                          "crash); the builder was given a description of the CLASS and extended the harness; result below is the re-run")
+        new["first_run"] = {"caught": True, "with_failing_input": 0, "summary": old.get("summary", []),
+                            "broken_obligations": old.get("broken_obligations", [])[:2]}
     m["check_result"] = new
     json.dump(m, open(os.path.join(d, "meta.json"), "w"), indent=1)
     print(sid, "caught" if viol else "STILL MISSED", len(viol) - len(nf), "with input,", len(nf), "without", flush=True)
